@@ -128,7 +128,7 @@ def fixed_workloads(group):
     return []
 
 
-FAULT_OPS = ("add", "update", "remove", "flush")
+FAULT_OPS = ("add", "update", "remove", "flush", "ext")
 
 
 def make_workloads(group, n_random, n_ops, kinds, seed, reject_bias=0.25):
